@@ -14,7 +14,7 @@
     every Finalize effect of a correct validator has a commit quorum in the soup.
   * `agreement_partial` (crash / restart, under RestoreLockSound) and its corollary `agreement_nocrash`.
 -/
-import Goloop.Proofs.C01Restart
+import Goloop.Proofs.C01Sync
 namespace Goloop.C01
 
 /-! ### the system -/
@@ -33,18 +33,31 @@ def Sys.step (sys : Sys) (i : Nat) (e : Event) : Sys :=
   ⟨sys.soup ++ newVotes (sys.st i) (vstep (sys.st i) e),
    fun j => if j = i then vstep (sys.st i) e else sys.st j⟩
 
+/-- validator `i` is handed block `b` of height `h` with a commit vote list (precommits of round `r` by
+    `signers`) through the block-sync callback -/
+def Sys.syncStep (sys : Sys) (i : Nat) (h r : Nat) (b : Blk) (signers : List Nat) : Sys :=
+  ⟨sys.soup ++ newVotes (sys.st i) (syncEv (sys.st i) h r b signers),
+   fun j => if j = i then syncEv (sys.st i) h r b signers else sys.st j⟩
+
 inductive Reach (n : Nat) (byz : Nat → Bool) : Sys → Prop
   | init : Reach n byz ⟨[], fun i => start { n := n, me := i }⟩
   | byzVote (sys : Sys) (v : VoteRec) : Reach n byz sys → byz v.signer = true →
       Reach n byz ⟨sys.soup ++ [v], sys.st⟩
   | event (sys : Sys) (i : Nat) (e : Event) : Reach n byz sys → byz i = false → e.noCrash →
       (∀ m, e = .vote m → m ∈ sys.soup) → Reach n byz (sys.step i e)
+  | sync (sys : Sys) (i : Nat) (h r : Nat) (b : Blk) (signers : List Nat) : Reach n byz sys → byz i = false →
+      (∀ v, v ∈ syncVotes h r b signers → v ∈ sys.soup) → Reach n byz (sys.syncStep i h r b signers)
 
 /-- validator `i` starts event `e` and its process dies at effect boundary `cut` of the trace: what
     follows `cut` never happened, `k` unsynced records of every WAL survive (C02's crash model) -/
 def Sys.crashStep (sys : Sys) (i : Nat) (e : Event) (cut k : Nat) : Sys :=
   ⟨sys.soup ++ newVotes (sys.st i) (crash (vstep (sys.st i) e) cut k),
    fun j => if j = i then crash (vstep (sys.st i) e) cut k else sys.st j⟩
+
+/-- the process of validator `i` dies at effect boundary `cut` while handling a block-sync callback -/
+def Sys.crashSyncStep (sys : Sys) (i : Nat) (h r : Nat) (b : Blk) (signers : List Nat) (cut k : Nat) : Sys :=
+  ⟨sys.soup ++ newVotes (sys.st i) (crash (syncEv (sys.st i) h r b signers) cut k),
+   fun j => if j = i then crash (syncEv (sys.st i) h r b signers) cut k else sys.st j⟩
 
 /-- L-sys WITH crash and restart of correct validators.  `P` is the condition every restart has to
     satisfy (`RLS` for `agreement_partial`; `fun _ => True` gives all executions).
@@ -61,9 +74,15 @@ inductive ReachC (P : S → Prop) (n : Nat) (byz : Nat → Bool) : Sys → Prop
       ReachC P n byz ⟨sys.soup ++ [v], sys.st⟩
   | event (sys : Sys) (i : Nat) (e : Event) : ReachC P n byz sys → byz i = false → e.noCrash →
       (∀ m, e = .vote m → m ∈ sys.soup) → ReachC P n byz (sys.step i e)
+  | sync (sys : Sys) (i : Nat) (h r : Nat) (b : Blk) (signers : List Nat) : ReachC P n byz sys →
+      byz i = false → (∀ v, v ∈ syncVotes h r b signers → v ∈ sys.soup) →
+      ReachC P n byz (sys.syncStep i h r b signers)
   | crashEvent (sys : Sys) (i : Nat) (e : Event) (cut k : Nat) : ReachC P n byz sys → byz i = false →
       e.noCrash → (∀ m, e = .vote m → m ∈ sys.soup) → (sys.st i).eff.length ≤ cut →
       ReachC P n byz (sys.crashStep i e cut k)
+  | crashSync (sys : Sys) (i : Nat) (h r : Nat) (b : Blk) (signers : List Nat) (cut k : Nat) :
+      ReachC P n byz sys → byz i = false → (∀ v, v ∈ syncVotes h r b signers → v ∈ sys.soup) →
+      (sys.st i).eff.length ≤ cut → ReachC P n byz (sys.crashSyncStep i h r b signers cut k)
   | restart (sys : Sys) (i : Nat) : ReachC P n byz sys → byz i = false → (sys.st i).started = false →
       SignClosed (sys.st i).eff → P (sys.st i) → ReachC P n byz (sys.step i .start)
 
@@ -73,6 +92,7 @@ theorem reachC_of_reach {P : S → Prop} {n : Nat} {byz : Nat → Bool} {sys : S
   | init => exact ReachC.init
   | byzVote sys v _ hb ih => exact ReachC.byzVote sys v ih hb
   | event sys i e _ hbi hn hl ih => exact ReachC.event sys i e ih hbi hn hl
+  | sync sys i h r b sg _ hbi hk ih => exact ReachC.sync sys i h r b sg ih hbi hk
 
 /-! ### the freshly started machine has signed nothing -/
 
@@ -306,6 +326,12 @@ theorem sysInv_event (n : Nat) (byz : Nat → Bool) (sys : Sys) (i : Nat) (e : E
   obtain ⟨h1, h2⟩ := m3_event (sys.st i) e hn hl (hi.mach i hbi)
   exact sysInv_update n byz sys i _ hi hbi h1 (sentOf_prefix h2)
 
+theorem sysInv_sync (n : Nat) (byz : Nat → Bool) (sys : Sys) (i : Nat) (h r : Nat) (b : Blk)
+    (signers : List Nat) (hi : SysInv n byz sys) (hbi : byz i = false)
+    (hk : ∀ v, v ∈ syncVotes h r b signers → v ∈ sys.soup) : SysInv n byz (sys.syncStep i h r b signers) := by
+  obtain ⟨h1, h2⟩ := m3_syncEv (sys.st i) h r b signers hk (hi.mach i hbi)
+  exact sysInv_update n byz sys i _ hi hbi h1 (sentOf_prefix h2)
+
 theorem sysInv_crashEvent (n : Nat) (byz : Nat → Bool) (sys : Sys) (i : Nat) (e : Event) (cut k : Nat)
     (hi : SysInv n byz sys) (hbi : byz i = false) (hn : e.noCrash) (hl : ∀ m, e = .vote m → m ∈ sys.soup)
     (hp : (sys.st i).eff.length ≤ cut) :
@@ -313,6 +339,17 @@ theorem sysInv_crashEvent (n : Nat) (byz : Nat → Bool) (sys : Sys) (i : Nat) (
   obtain ⟨h1, h2⟩ := m3_event (sys.st i) e hn hl (hi.mach i hbi)
   refine sysInv_update n byz sys i _ hi hbi (m3_crash _ cut k h1) ?_
   show sentOf (sys.st i).eff <+: sentOf ((vstep (sys.st i) e).eff.take cut ++ [.crash k])
+  rw [sentOf_nonsend _ _ (by intro m; simp)]
+  apply sentOf_prefix
+  exact List.prefix_take_iff.mpr ⟨h2, hp⟩
+
+theorem sysInv_crashSync (n : Nat) (byz : Nat → Bool) (sys : Sys) (i : Nat) (h r : Nat) (b : Blk)
+    (signers : List Nat) (cut k : Nat) (hi : SysInv n byz sys) (hbi : byz i = false)
+    (hk : ∀ v, v ∈ syncVotes h r b signers → v ∈ sys.soup) (hp : (sys.st i).eff.length ≤ cut) :
+    SysInv n byz (sys.crashSyncStep i h r b signers cut k) := by
+  obtain ⟨h1, h2⟩ := m3_syncEv (sys.st i) h r b signers hk (hi.mach i hbi)
+  refine sysInv_update n byz sys i _ hi hbi (m3_crash _ cut k h1) ?_
+  show sentOf (sys.st i).eff <+: sentOf ((syncEv (sys.st i) h r b signers).eff.take cut ++ [.crash k])
   rw [sentOf_nonsend _ _ (by intro m; simp)]
   apply sentOf_prefix
   exact List.prefix_take_iff.mpr ⟨h2, hp⟩
@@ -329,7 +366,9 @@ theorem reachC_sysInv (n : Nat) (byz : Nat → Bool) (sys : Sys) (hr : ReachC RL
   | init => exact sysInv_init n byz
   | byzVote sys v _ hb ih => exact sysInv_byz n byz sys v ih hb
   | event sys i e _ hbi hn hl ih => exact sysInv_event n byz sys i e ih hbi hn hl
+  | sync sys i h r b sg _ hbi hk ih => exact sysInv_sync n byz sys i h r b sg ih hbi hk
   | crashEvent sys i e cut k _ hbi hn hl hp ih => exact sysInv_crashEvent n byz sys i e cut k ih hbi hn hl hp
+  | crashSync sys i h r b sg cut k _ hbi hk hp ih => exact sysInv_crashSync n byz sys i h r b sg cut k ih hbi hk hp
   | restart sys i _ hbi hns hsc hP ih => exact sysInv_restart n byz sys i ih hbi hns hsc hP
 
 theorem reach_sysInv (n : Nat) (byz : Nat → Bool) (sys : Sys) (hr : Reach n byz sys) : SysInv n byz sys :=
@@ -500,10 +539,12 @@ theorem agreement_nocrash (n : Nat) (byz : Nat → Bool) (hb : fewByz n byz) (sy
 inductive Step where
   | byz (v : VoteRec)
   | ev (i : Nat) (e : Event)
+  | sync (i : Nat) (h r : Nat) (b : Blk) (signers : List Nat)
 
 def Sys.next (sys : Sys) : Step → Sys
   | .byz v => ⟨sys.soup ++ [v], sys.st⟩
   | .ev i e => sys.step i e
+  | .sync i h r b sg => sys.syncStep i h r b sg
 
 def Sys.run (sys : Sys) : List Step → Sys
   | [] => sys
@@ -525,6 +566,7 @@ def Step.ok (byz : Nat → Bool) (sys : Sys) : Step → Bool
       (match e with
        | .vote m => decide (m ∈ sys.soup)
        | _ => true)
+  | .sync i h r b sg => !byz i && (syncVotes h r b sg).all (fun v => decide (v ∈ sys.soup))
 
 def Sys.runOk (byz : Nat → Bool) (sys : Sys) : List Step → Bool
   | [] => true
@@ -551,18 +593,25 @@ theorem reach_run (n : Nat) (byz : Nat → Bool) (sys : Sys) (steps : List Step)
       intro m hm
       subst hm
       simpa using h.2
+    | sync i h r b sg =>
+      have h' := hok.1
+      unfold Step.ok at h'
+      simp only [Bool.and_eq_true, Bool.not_eq_true', List.all_eq_true, decide_eq_true_eq] at h'
+      exact Reach.sync sys i h r b sg hr h'.1 h'.2
 
 /-! ### concrete histories with crash and restart -/
 
 inductive StepC where
   | byz (v : VoteRec)
   | ev (i : Nat) (e : Event)
+  | sync (i : Nat) (h r : Nat) (b : Blk) (signers : List Nat)
   | crashEv (i : Nat) (e : Event) (cut k : Nat)
   | restart (i : Nat)
 
 def Sys.nextC (sys : Sys) : StepC → Sys
   | .byz v => ⟨sys.soup ++ [v], sys.st⟩
   | .ev i e => sys.step i e
+  | .sync i h r b sg => sys.syncStep i h r b sg
   | .crashEv i e cut k => sys.crashStep i e cut k
   | .restart i => sys.step i .start
 
@@ -600,6 +649,7 @@ theorem evOk_spec {byz : Nat → Bool} {sys : Sys} {i : Nat} {e : Event} (h : ev
 def StepC.ok (byz : Nat → Bool) (sys : Sys) : StepC → Bool
   | .byz v => byz v.signer
   | .ev i e => evOk byz sys i e
+  | .sync i h r b sg => !byz i && (syncVotes h r b sg).all (fun v => decide (v ∈ sys.soup))
   | .crashEv i e cut _ => evOk byz sys i e && decide ((sys.st i).eff.length ≤ cut)
   | .restart i => !byz i && !(sys.st i).started && signClosedB (sys.st i).eff && decide (RLS (sys.st i))
 
@@ -621,6 +671,11 @@ theorem reachC_run (n : Nat) (byz : Nat → Bool) (sys : Sys) (steps : List Step
     | ev i e =>
       obtain ⟨h1, h2, h3⟩ := evOk_spec hok.1
       exact ReachC.event sys i e hr h1 h2 h3
+    | sync i h r b sg =>
+      have h' := hok.1
+      unfold StepC.ok at h'
+      simp only [Bool.and_eq_true, Bool.not_eq_true', List.all_eq_true, decide_eq_true_eq] at h'
+      exact ReachC.sync sys i h r b sg hr h'.1 h'.2
     | crashEv i e cut k =>
       have h := hok.1
       unfold StepC.ok at h
